@@ -159,6 +159,37 @@ def run(chk):
     for fn in fonts:
         for opts in (0, 4):
             fcases.append('f%d font %s %d' % (len(fcases), fn, opts))
+    # the pseudo-glyph map is part of the mapping: the shipped fonts that have one, and copies of them whose pseudo entries are moved to
+    # other code points (the ends of the BMP and of the supplementary planes among them)
+    import shutil, struct as _st
+    from props import fontkit as _K
+    pdir = os.path.join(vlib.BUILD, 'fuzzfonts', 'c13p-%s-%d' % (chk.tier, chk.seed)); shutil.rmtree(pdir, ignore_errors=True); os.makedirs(pdir)
+    pseudo_of = {}
+    for fn in ('general.ttf', 'Awami_test.ttf', 'Scheherazadegr.ttf', 'charis_r_gr.ttf'):
+        data = open(os.path.join(vlib.REPO, 'tests/fonts', fn), 'rb').read()
+        try: ps = _K.silf_pseudos(data)
+        except Exception: ps = None
+        if not ps: continue
+        pseudo_of[fn] = (fn, {u: g for _, u, g in ps})
+        if fn not in fonts:
+            fcases.append('f%d font %s %d' % (len(fcases), fn, 0))
+        for k in range(4 if chk.tier == 'thorough' else 2):
+            # strictly increasing new code points for the first entries (the map is searched in order)
+            news = sorted(chk.rng.sample([0xFFFF, 0x10000, 0x10001, 0x1F600, 0xF0000, 0x10FFFF, 0xFFFE, 0xE000, 0x2FFFF, 0x100000, chk.rng.randrange(0x10000, 0x110000), chk.rng.randrange(0x80, 0x10000)], min(len(ps), chk.rng.choice((1, 2, 3)))))
+            keep = [u for _, u, _ in ps[len(news):]]
+            if keep and news[-1] >= keep[0]:
+                news = [u for u in news if u < keep[0]]
+                if not news: continue
+            d = bytearray(data)
+            # the moved entries go to the END of the map when they are larger than what stays, so the map stays sorted: rewrite the whole map
+            ents = sorted([(u, g) for u, (_, _, g) in zip(news, ps)] + [(u, g) for _, u, g in ps[len(news):]])
+            for (off, _, _), (u, g) in zip(ps, ents):
+                d[off:off + 6] = _st.pack('>IH', u, g)
+            p = os.path.join(pdir, 'pseudo%d_%s' % (k, fn))
+            open(p, 'wb').write(bytes(d))
+            pseudo_of[p] = (fn, dict(ents))
+            for opts in (0, 4):
+                fcases.append('f%d font %s %d' % (len(fcases), p, opts))
     ml, il, ierr = vlib.run_pair(mexe, wrapper, cases, timeout=2400)
     _, fl, ferr = vlib.run_pair(None, chk.sweep_wrapper, fcases, timeout=2400)
     ndis, classes, dist = 0, set(), {}
@@ -251,8 +282,20 @@ def run(chk):
             a, b = r['0'].split(), r['4'].split()
             diff = [x for x in a if x not in b][:3] + [x for x in b if x not in a][:3]
             chk.violation('cmap-font-cached:%s' % fn, 'direct and cached faces disagree on %s: %s' % (fn, diff), dict(font=fn, differing_runs=diff))
+        if '0' in r and fn in pseudo_of and ' P' in r['0']:
+            # supported-though-unmapped code points are exactly the pseudo map's entries the cmap leaves unmapped
+            base, pm = pseudo_of[fn]
+            cm = G.parse_font_cmap(os.path.join(vlib.REPO, 'tests/fonts', base))
+            want = sorted(u for u, g in pm.items() if g and not cm.get(u, 0))
+            gotp = sorted(int(x.split(':')[0], 16) for x in r['0'].split(' P', 1)[1].split() if x.endswith(':1'))
+            odd = [x for x in r['0'].split(' P', 1)[1].split() if not x.endswith(':1')]
+            if gotp != want or odd:
+                bad = sorted(set(gotp) ^ set(want))[:5]
+                chk.violation('cmap-pseudo:%s:%s' % (os.path.basename(fn), ','.join('%x' % b for b in bad)), '%s: gr_face_is_char_supported on code points the cmap leaves unmapped: the pseudo-glyph map lists %s, the face supports %s%s'
+                              % (os.path.basename(fn), ['%x' % u for u in want][:12], ['%x' % u for u in gotp][:12], (' and reports %s' % odd[:3]) if odd else ''), dict(font=os.path.basename(fn), pseudo_map={'%x' % u: g for u, g in pm.items()}, base_font=base))
+            classes.add(('pseudo', os.path.basename(fn), len(want)))
         if '0' in r:
-            exp = G.parse_font_cmap(os.path.join(vlib.REPO, 'tests/fonts', fn))
+            exp = G.parse_font_cmap(os.path.join(vlib.REPO, 'tests/fonts', fn if not fn.startswith('/') else pseudo_of[fn][0]))
             got = {}
             for run_ in r['0'].split(' P')[0].split()[1:]:
                 rg, g = run_.split(':'); s, e = rg.split('-')
